@@ -463,7 +463,12 @@ func (vs *ValidatorStore) GetEndBlockUpdate(ctx *ValidatorContext, req types.Req
 			// (the record read above is the previous block's: a stake delivered in this
 			// block revives the validator, its current record must stay)
 			current, curErr := vs.Get(validator.Address)
-			if validator.Power <= 0 && (curErr != nil || current.Power <= 0) {
+			// a validator that was elected until now or left less than three blocks ago is
+			// (or will be) in tendermint's set: its record must stay until the purge below
+			// has removed it from there, a deleted record is never purged
+			_, inLastCommit := vs.lastActive[string(validator.Address)]
+			leftRecently := validatorStatus != nil && (validatorStatus.IsActive || height <= validatorStatus.Height+2)
+			if validator.Power <= 0 && (curErr != nil || current.Power <= 0) && !inLastCommit && !leftRecently {
 				vKey := append(vs.prefix, validator.Address.Bytes()...)
 				fmt.Println("Deleting :", validator.Address.String())
 				//TODO: validator delete will not properly delete the item because of state implementation
